@@ -144,7 +144,7 @@ def lifecycle_run(ctx, corr, freq):
                 "universe_changes": len(changes)})
 
 
-def monitor_lifecycle(ctx, freq, days, published, cb_log, defined, start, end, changes):
+def monitor_lifecycle(ctx, freq, days, published, cb_log, defined, start, end, changes, grid=STOCK_MINUTES):
     replay = {"frequency": freq, "start": str(start), "end": str(end), "universe_changes": changes[:10]}
 
     def wit(clause, kind, what):
@@ -184,7 +184,7 @@ def monitor_lifecycle(ctx, freq, days, published, cb_log, defined, start, end, c
             return
         if freq == "1d" and nbar != 1:
             wit("C08.1", "bar_count", "day %s: %d bars at daily frequency" % (d, nbar))
-        if freq == "1m" and [b.hour * 60 + b.minute for b in bars] != STOCK_MINUTES:
+        if freq == "1m" and grid is not None and [b.hour * 60 + b.minute for b in bars] != grid:
             wit("C08.2", "minute_grid", "day %s: %d bars, %d distinct, stock minute grid has %d" % (d, len(bars), len(set(bars)), len(STOCK_MINUTES)))
     for k in range(len(published) - 1):
         if published[k][1] > published[k + 1][1] or published[k][2] > published[k + 1][2]:
@@ -276,6 +276,67 @@ def phase_table_run(ctx, corr):
     ctx.stats["api_phase_pairs"] += len(keys)
 
 
+def mixed_minute_run(ctx):
+    """minute frequency with a stock and a futures account: a future whose session opens earlier than the stock session is subscribed in
+    before_trading / open_auction / a bar of some day (monitor only: the futures minute grid is outside the Lean model)"""
+    from rqalpha.environment import Environment
+    from rqalpha.core.events import EVENT
+    from rqalpha.core.execution_context import ExecutionContext
+    rnd = random.Random(ctx.rnd.random())
+    S = B.gen_market(rnd, ndays=rnd.randrange(3, 6), warm=1, n_stocks=1, with_future=True,
+                     opts={"kinds": ["CS"], "p_delist": 0, "p_split": 0, "p_div": 0, "p_sus": 0, "n_futures": 1, "p_expire": 0})
+    fut = S["futures"][0]["id"]
+    stock = S["stocks"][0]["id"]
+    days = [d for d in S["cal"] if S["start"] <= d <= S["end"]]
+    sub_day = rnd.randrange(0, len(days))
+    sub_where = rnd.choice(["before_trading", "before_trading", "open_auction", "bar"])
+    unsub_day = sub_day + 1 if (sub_day + 1 < len(days) and rnd.random() < 0.5) else None
+    published, cb_log = [], []
+
+    def init(context):
+        from rqalpha.api import subscribe_event, update_universe
+        env = Environment.get_instance()
+        for name in EVENTS:
+            subscribe_event(getattr(EVENT, name), (lambda nm: (lambda c, e: published.append((nm, env.calendar_dt, env.trading_dt))))(name))
+        update_universe([stock])
+
+    def act(where):
+        def f(context, bar_dict=None):
+            import rqalpha.api as api
+            env = Environment.get_instance()
+            cb_log.append(({"before_trading": "before_trading", "open_auction": "open_auction", "bar": "handle_bar"}[where], env.calendar_dt, ExecutionContext.phase().name))
+            i = days.index(env.trading_dt.date())
+            first_bar = where != "bar" or (env.calendar_dt.hour, env.calendar_dt.minute) == (9, 45)
+            if i == sub_day and where == sub_where and first_bar and fut not in context.universe:
+                api.subscribe(fut)
+            if unsub_day is not None and i == unsub_day and where == "before_trading" and fut in context.universe:
+                api.unsubscribe(fut)
+        return f
+    extra = {"rqv_minute": {"enabled": True, "lib": "minute_source"}}
+    # the future's minutes (what the data source answers to get_trading_minutes_for): 09:01-10:15, 10:31-11:30, 13:31-15:00
+    import numpy as np, minute_source
+    fmins = list(range(541, 616)) + list(range(631, 691)) + list(range(811, 901))
+    rows = [(int(d.strftime("%Y%m%d")) * 1000000 + (m // 60) * 10000 + (m % 60) * 100, 3000.0, 3000.0, 3000.0, 3000.0, 100.0, 3e6) for d in S["cal"] for m in fmins]
+    minute_source.MIN.clear()
+    minute_source.MIN[fut] = np.array(rows, dtype=np.dtype([("datetime", "<u8"), ("open", "<f8"), ("close", "<f8"), ("high", "<f8"), ("low", "<f8"), ("volume", "<f8"), ("total_turnover", "<f8")]))
+    res, exc = runner.run_real(S, dict(accounts={"stock": 1e6, "future": 1e6}, frequency="1m", extra_mods=extra),
+                               {"init": init, "before_trading": act("before_trading"), "open_auction": act("open_auction"), "handle_bar": act("bar")})
+    ctx.evaluations += 1
+    minute_source.MIN.clear()
+    if exc is not None:
+        raise RuntimeError("mixed minute run failed: %r" % (exc,))
+    ctx.stats["runs_1m_mixed"] += 1
+    ctx.nontrivial("1m-mixed", sub_where, sub_day == 0, unsub_day is not None)
+    defined = {"before_trading": True, "open_auction": True, "handle_bar": True, "after_trading": False}
+    monitor_lifecycle(ctx, "1m", days, published, cb_log, defined, days[0], days[-1], [("subscribe " + sub_where, sub_day)], grid=None)
+    # the strategy's own clock: every callback of a day runs at or after the one before it
+    for a, b in zip(cb_log, cb_log[1:]):
+        if b[1] < a[1]:
+            ctx.witness("C08.3", {"kind": "callback_clock_backwards", "frequency": "1m"}, "%s at %s ran after %s at %s (stock + futures accounts, %s subscribed in %s of day %d)"
+                        % (b[0], b[1], a[0], a[1], fut, sub_where, sub_day), {"subscribe": sub_where, "day": sub_day})
+            break
+
+
 def run(ctx):
     c1 = ctx.corr("published sequence 1d", "every published PRE/main/POST event with both clocks of real daily runs vs model `execRun (source1d ...)` incl. `_adjust_start_date`")
     c2 = ctx.corr("published sequence 1m", "minute runs on the stock minute grid with scripted universe changes vs model `execRun (source1m script ...)`")
@@ -286,6 +347,8 @@ def run(ctx):
         lifecycle_run(ctx, c2, "1m")
     for _ in range(ctx.n(1, 5)):
         phase_table_run(ctx, c3)
+    for _ in range(ctx.n(6, 150)):
+        mixed_minute_run(ctx)
 
 
 def replay(ctx, data):
